@@ -89,7 +89,8 @@ def fam_term(fam, lazy):
         fields = [f"(FD {t[1]} {spec_id(t[3])} {b(not (len(t) > 4 and t[4] == 'Self'))})" if t[0] == "dc" else f"(FD {ghost} 0 true)"
                   for _, t in F.all_fields(fam, i) if t[0] in ("dc", "ghost")]
         par = "None" if c["parent"] is None else f"(Some {c['parent']})"
-        out.append(f"(CD {b(lazy[i] and c['kind'] == 'mixin')} {b(c['dsup'])} [{'; '.join(fmts)}] [{'; '.join(fields)}] {par})")
+        out.append(f"(CDX {b(lazy[i] and c['kind'] == 'mixin')} {b(c['dsup'])} [{'; '.join(fmts)}] [{'; '.join(fields)}] {par} "
+                   f"{b(c.get('apc', True))})")
     return "[" + "; ".join(out) + "]"
 
 
@@ -151,7 +152,7 @@ def case_term(case, d5=True):
 
 
 THEOREMS = ["C14_reachable_inv", "C14_no_inherited_code", "C14_call_state_independent", "C14_history_partial", "C14_history_refuted",
-            "C14_first_call_terminates", "C14_lazy_dialect_diverges", "C14_lazy_specialisation_diverges",
+            "C14_first_call_terminates", "C14_lazy_dialect_diverges", 
             "C14_no_cache_attribute_error", "C14_build_cycle_diverges", "C14_schedules_partial", "C14_schedules_multi_slot_partial"]
 
 
@@ -159,9 +160,18 @@ def theorems(ctx):
     ctx.theorems("props/C14_lazy.vo", THEOREMS)
     # specialisation key: proofs over kernel K11 (method names) as translated on this run; the plugin fails
     # closed unless hash_type_args is md5(",".join(map(type_name, type_args))).hexdigest()
-    ctx.theorems("props/C14_speckey.vo", ["C14_spec_key_inj", "C14_join_inj"], kernels=["K11"])
+    ctx.theorems("props/C14_speckey.vo", ["C14_spec_key_inj", "C14_join_inj", "C14_enc_name_differs_iff"], kernels=["K11"])
     spec_key_tie(ctx)
-    ctx.coqchk(["VerifProps.C14_lazy", "VerifProps.C14_speckey"])      # thorough tier only
+    # the stub / compile / raise decision and the stub's re-build arguments, over kernel K114a (builder.py, this run)
+    # the on-demand compilation of nested dataclasses, over kernel K114b (pack.py / unpack.py, this run), and the
+    # installation of a generated method, over kernel K114c (add_(un)pack_method / _add_setattr_method)
+    ctx.theorems("props/C14_decision.vo", ["C14_source_lazy_test", "C14_source_unresolved_test", "C14_build_follows_source",
+                                           "C14_stub_step_follows_source", "C14_source_ondemand_test",
+                                           "C14_deps_step_follows_source", "C14_build_ondemand_follows_source",
+                                           "C14_creation_never_unresolved", "C14_creation_unresolved_raises",
+                                           "C14_source_install_tests", "C14_install_follows_source"],
+                 kernels=["K114a", "K114b", "K114c"])
+    ctx.coqchk(["VerifProps.C14_lazy", "VerifProps.C14_speckey", "VerifProps.C14_decision"])      # thorough tier only
 
 
 def spec_key_tie(ctx):
@@ -199,9 +209,16 @@ def spec_key_tie(ctx):
             ctx.correspondence("coq-join-vs-python-join", len(cases), 0, "")
 
 
-def correspondence(ctx, cases, limit=None):
+def correspondence(ctx, cases, limit=None, tag=""):
     terms, srcs, nsteps = [], [], 0
+    cterms = []
     for case in cases:
+        if case.get("creation"):
+            # the class statements up to the failing one: all fine, then UnresolvedTypeReferenceError (kind 5)
+            pos = case["creation"]["pos"]
+            cterms.append(f"(CCASE {fam_term(case['fam'], case['lazy'])} [{'; '.join(map(str, case['order'][:pos + 1]))}] "
+                          f"[{'; '.join(['0'] * pos + ['5'])}])")
+            continue
         if "snaps" not in case or not case["snaps"]:
             continue
         try:
@@ -214,9 +231,15 @@ def correspondence(ctx, cases, limit=None):
         nsteps += n + 1
         if limit and len(terms) >= limit:
             break
-    name = "lazy-model-vs-class-dicts"
-    bad, log = vlib.coq_bad_idx("c14_corr", "LazyModel LazyCheck", "", "Close Scope Z_scope.\n", terms, "case_ok", "case", shard=60,
-                                needs=["theories/LazyCheck.vo"])
+    name = "lazy-model-vs-class-dicts" + ("-" + tag if tag else "")
+    if cterms or tag:
+        cbad, _, clog = corr_eval(cterms, ok_fun="ccase_ok", case_type="ccase", fname="c14_ccorr" + tag, dom=False)
+        cname = "lazy-model-vs-class-creation-failures" + ("-" + tag if tag else "")
+        ctx.correspondence(cname, len(cterms), -1 if cbad is None else len(cbad), (clog if cbad is None else f"first: {cterms[cbad[0]]}" if cbad else ""))
+        if cbad is None or cbad:
+            ctx.not_shown("correspondence " + cname, clog[-1500:] if cbad is None else
+                          f"{len(cbad)} class-creation failures disagree with the model; first: {cterms[cbad[0]][:1500]}")
+    bad, out_dom, log = corr_eval(terms, fname="c14_corr" + tag)
     if bad is None:
         ctx.correspondence(name, len(terms), -1, log)
         ctx.not_shown("correspondence " + name, log)
@@ -225,16 +248,44 @@ def correspondence(ctx, cases, limit=None):
     if bad:
         c = srcs[bad[0]]
         ok, out = vlib.coq_eval("c14_corr_dbg", vlib.CASE_HEADER.format(imports="LazyModel LazyCheck", gen_imports="") + "Close Scope Z_scope.\n" +
-                                f"Definition k := {terms[bad[0]]}.\nEval vm_compute in (check_case k).\nEval vm_compute in (trace_case k).\n")
+                                f"Definition k := {terms[bad[0]]}.\nEval vm_compute in (check_case k).\nEval vm_compute in (trace_case k).\n",
+                                timeout=1800)
         detail = (f"{len(bad)} histories disagree; first: mode {c['mode']} order {c['order']} lazy {c['lazy']} ops {c['ops'][:3]} "
                   f"observed {c['snaps'][:2]} ;; coq: {out[-1800:]}")
         ctx.not_shown("correspondence " + name, detail)
     ctx.correspondence(name, len(terms), len(bad), detail or f"{nsteps} compared states")
     ctx.hist("correspondence", "histories", len(terms))
     # how many of the compared families lie in the domain of the theorems (selfref_unspec), decided in Coq
-    out_dom, _ = vlib.coq_bad_idx("c14_dom", "LazyModel LazyCheck", "", "Close Scope Z_scope.\n", terms,
-                                  "fun k => selfref_unspecb (k_fam k)", "case", shard=60, needs=["theories/LazyCheck.vo"])
-    if out_dom is not None:
-        ctx.hist("correspondence", "families outside selfref_unspec", len(out_dom))
+    ctx.hist("correspondence", "families outside selfref_unspec", len(out_dom))
     ctx.hist("correspondence", "states", nsteps)
     return not bad
+
+
+def corr_eval(terms, shard=60, ok_fun="case_ok", case_type="case", fname="c14_corr", dom=True):
+    """one coqc run per shard evaluates both `bad_idx case_ok cases` and the domain predicate; generous time limit
+    (a loaded machine must not turn into an alarm). Returns (bad, outside_domain, log) or (None, None, log)."""
+    br = vlib.coq_make(["theories/Wire.vo", "theories/PyK.vo", "theories/LazyCheck.vo"], timeout=2400)
+    if not br.ok:
+        return None, None, "model does not build: " + (br.error or "")
+    files = []
+    for si in range(0, max(len(terms), 1), shard):
+        chunk = terms[si:si + shard]
+        txt = vlib.CASE_HEADER.format(imports="LazyModel LazyCheck", gen_imports="") + "Close Scope Z_scope.\n"
+        txt += f"Definition cases : list {case_type} :=\n  [" + ";\n   ".join(chunk) + "].\n"
+        txt += f"Eval vm_compute in (bad_idx {ok_fun} cases).\n"
+        if dom:
+            txt += "Eval vm_compute in (bad_idx (fun k => selfref_unspecb (k_fam k)) cases).\n"
+        files.append((f"{fname}_{si // shard}", txt))
+    res = vlib.coq_eval_many(files, timeout=1800, jobs=6)
+    bad, domo, logs = [], [], []
+    for n, (ok, out) in enumerate(res):
+        if not ok:
+            return None, None, out[-3000:]
+        parts = re.findall(r"=\s*(\[[^\]]*\])\s*(?:%nat)?\s*:\s*list nat", out, re.S)
+        if len(parts) != (2 if dom else 1):
+            return None, None, "unparsable coq output: " + out[-1500:]
+        for tgt, body in zip((bad, domo), parts):
+            body = body.strip()[1:-1].strip()
+            tgt.extend(n * shard + int(x.replace("%nat", "").strip()) for x in body.split(";") if x.strip())
+        logs.append(out[-200:])
+    return bad, domo, "\n".join(logs)
